@@ -501,6 +501,54 @@ def check_decompress(ctx, rng, n):
                         or (r["status"] != 2 and r["err"]):
                     ctx.violation("rg -z on a truncated .%s with an early stop: unexpected status %d" % (c["ext"], r["status"]),
                                   replay)
+    # a chatty decompressor: a wrapper `gzip`, first in PATH, that writes 1 MiB (or 200 KiB) of diagnostics to stderr
+    # before / after the real tool's output.  The search must neither block nor fail (liveness: generous time limit)
+    if avail["gz"]:
+        real = shutil.which("gzip")
+        wdir = os.path.join(root, "fakebin")
+        os.mkdir(wdir)
+        os.chmod(wdir, 0o755)
+        data = b"".join(b"line %d hit\n" % j if j % 5 == 0 else b"line %d other\n" % j for j in range(300))
+        with open(os.path.join(root, "chatty.gz"), "wb") as f:
+            f.write(gzip.compress(data))
+        with open(os.path.join(root, "chatty_plain.txt"), "wb") as f:
+            f.write(data)
+        for x in ("chatty.gz", "chatty_plain.txt"):
+            os.chmod(os.path.join(root, x), 0o644)
+        LIMIT = 150
+        variants = []
+        for vi, (kb, when) in enumerate(((1024, "before"), (200, "before"), (1024, "after"), (4096, "before"))):
+            noise = 'head -c %d /dev/zero | tr "\\000" w >&2 || exit 98' % (kb * 1024)
+            body = (noise + '\nexec %s "$@"\n' % real) if when == "before" else ('%s "$@" || exit $?\n%s\n' % (real, noise))
+            vdir = os.path.join(wdir, "v%d" % vi)
+            os.mkdir(vdir)
+            os.chmod(vdir, 0o755)
+            with open(os.path.join(vdir, "gzip"), "w") as f:
+                f.write("#!/bin/sh\n" + body)
+            os.chmod(os.path.join(vdir, "gzip"), 0o755)
+            for thr, flag in ((1, None), (3, "-c")):
+                variants.append(dict(kb=kb, when=when, body=body, vdir=vdir, thr=thr, flag=flag))
+
+        def run_chatty(v):
+            base = ["--color", "never", "-j", str(v["thr"])] + ([v["flag"]] if v["flag"] else [])
+            r = K.run_rg(base + ["-z", "-e", "hit", "chatty.gz"], root, timeout=LIMIT,
+                         env={"PATH": v["vdir"] + ":" + os.environ.get("PATH", "/usr/bin:/bin")})
+            ref = K.run_rg(base + ["-e", "hit", "chatty_plain.txt"], root)
+            return base, r, ref
+        for v, (base, r, ref) in zip(variants, K.pmap(run_chatty, variants)):
+            kb, when = v["kb"], v["when"]
+            ctx.note_case("z-chatty" + repr((kb, when, v["thr"], v["flag"])), True)
+            ctx.cov["chatty_decompressor_runs"] = ctx.cov.get("chatty_decompressor_runs", 0) + 1
+            replay = dict(kind="decompress-chatty", stderr_kib=kb, when=when, wrapper=v["body"],
+                          args=" ".join(base + ["-z", "-e", "hit", "chatty.gz"]), status=r["status"],
+                          out=repr(r["out"][:200]), err=repr(r["err"][:200]), secs=round(r["secs"], 1))
+            if r["timeout"]:
+                ctx.violation("rg -z blocked for more than %d s on a decompressor that writes %d KiB to stderr %s its "
+                              "output (a run that normally takes well under a second)" % (LIMIT, kb, when), replay)
+            elif r["err"] or r["status"] != ref["status"] or \
+                    r["out"] != ref["out"].replace(b"chatty_plain.txt", b"chatty.gz"):
+                ctx.violation("rg -z with a chatty but successful decompressor differs from rg on the decompressed "
+                              "bytes", replay)
     # the decompressor cannot be started: documented fallback, recorded as a known finding of the literal statement
     name = "fallback.gz"
     with open(os.path.join(root, name), "wb") as f:
